@@ -445,7 +445,33 @@ func (fc *fuseCtx) checkParenthesize() bool {
 
 // collectDomains: which tokens the tree builders can store into Token-typed node fields.
 func (fc *fuseCtx) collectDomains() {
-	for _, pk := range []string{"parser", "internal/cover", "internal/resolver"} {
+	// package parser: per-token evaluation of every function that builds a node (gramssa.go)
+	if g := newGssa(fc.c); g != nil {
+		doms := g.tokenDomains()
+		var keys []string
+		for k := range doms {
+			keys = append(keys, k)
+		}
+		sort.Strings(keys)
+		for _, key := range keys {
+			unknown := false
+			for _, t := range doms[key] {
+				if t == "?" {
+					unknown = true
+				}
+			}
+			if unknown {
+				fc.domains[key] = nil
+				fc.domains[key+"#unknown"] = []string{"?"}
+				continue
+			}
+			fc.domains[key] = append(fc.domains[key], doms[key]...)
+		}
+		fc.c.trivial("fuse:domains", token.NoPos, "operator domains built by the parser (per-token evaluation): %v", doms)
+	} else {
+		fc.c.undecided("anchor:parser-ssa", token.NoPos, "package parser not resolvable for the operator domains")
+	}
+	for _, pk := range []string{"internal/cover", "internal/resolver"} {
 		p := fc.c.pkg(pk)
 		if p == nil {
 			continue
